@@ -2,7 +2,7 @@ SPECIFICATION TSpec
 CONSTANTS
   Backends = {"b1", "b2", "b3", "b4", "b5", "b6"}
   MaxJoins = 1000
-  AllowEarlyAck = FALSE
+  AllowEarlyAck = TRUE
 INVARIANTS Mark TypeOK PlayImpliesJoined NoBackendBeforeLogin CfgAckOrder
 POSTCONDITION Accepted
 CHECK_DEADLOCK FALSE
